@@ -266,7 +266,7 @@ where
 pub(crate) struct CacheProcessor<V, U, CB, S> {
     insert_buf_rx: Receiver<Item<V>>,
     stop_rx: Receiver<()>,
-    clear_rx: Receiver<()>,
+    clear_rx: Receiver<WaitSignal>,
     metrics: Arc<Metrics>,
     store: Arc<ShardedMap<V, U, S, S>>,
     policy: Arc<AsyncLFUPolicy<S>>,
@@ -416,7 +416,7 @@ pub struct AsyncCache<
 
     pub(crate) stop_tx: Sender<()>,
 
-    pub(crate) clear_tx: Sender<()>,
+    pub(crate) clear_tx: Sender<WaitSignal>,
 
     pub(crate) callback: Arc<CB>,
 
@@ -514,14 +514,15 @@ where
             return Ok(());
         }
 
-        // stop the process item thread.
-        self.clear_tx.send(()).await.map_err(|e| {
+        // The processor wipes policy, store and metrics itself and then discards what is still
+        // buffered, so the wipe cannot interleave with an item it is applying; wait until it has
+        // done so (the signal also releases us if the processor has stopped meanwhile).
+        let wg = WaitGroup::new();
+        let (signal, _) = WaitSignal::new(wg.add(1));
+        self.clear_tx.send(signal).await.map_err(|e| {
             CacheError::SendError(format!("fail to send clear signal to working thread {}", e))
         })?;
-
-        self.policy.clear();
-        self.store.clear();
-        self.metrics.clear();
+        wg.wait().await;
 
         Ok(())
     }
@@ -715,7 +716,7 @@ where
         policy: Arc<AsyncLFUPolicy<S>>,
         insert_buf_rx: Receiver<Item<V>>,
         stop_rx: Receiver<()>,
-        clear_rx: Receiver<()>,
+        clear_rx: Receiver<WaitSignal>,
         metrics: Arc<Metrics>,
         callback: Arc<CB>,
     ) -> Self {
@@ -754,10 +755,12 @@ where
                             tracing::error!("fail to handle cleanup event, error: {}", e);
                         }
                     },
-                    _ = self.clear_rx.recv().fuse() => {
-                        if let Err(e) = CacheCleaner::new(&mut self).clean().await {
+                    signal = self.clear_rx.recv().fuse() => {
+                        if let Err(e) = self.handle_clear_event().await {
                             tracing::error!("fail to handle clear event, error: {}", e);
                         }
+                        // releases the caller of clear()
+                        drop(signal);
                     },
                     _ = self.stop_rx.recv().fuse() => {
                         _ = self.handle_close_event();
@@ -769,12 +772,22 @@ where
     }
 
     #[inline]
+    pub(crate) async fn handle_clear_event(&mut self) -> Result<(), CacheError> {
+        self.policy.clear();
+        self.store.clear();
+        self.metrics.clear();
+        // discard what is still buffered; pending wait() calls are released only now, after the wipe
+        CacheCleaner::new(self).clean().await
+    }
+
+    #[inline]
     pub(crate) fn handle_close_event(&mut self) -> Result<(), CacheError> {
         self.insert_buf_rx.close();
         self.clear_rx.close();
         self.stop_rx.close();
         // Nothing can be queued any more: discard what is left so that pending waiters are released.
         while self.insert_buf_rx.try_recv().is_ok() {}
+        while self.clear_rx.try_recv().is_ok() {}
         Ok(())
     }
 
